@@ -2,12 +2,24 @@
 """prints the prompt for a fresh bug-seeding sub-agent for one property (it gets the property text only)"""
 import json, sys
 pid = sys.argv[1].upper()
+ROUND = int(sys.argv[2]) if len(sys.argv) > 2 else 1
 p = next(json.loads(l) for l in open("/verif/properties.jsonl") if json.loads(l)["id"] == pid)
-wt = "/tmp/seed-%s" % pid.lower()
+wt = "/tmp/seed%s-%s" % ("" if ROUND == 1 else str(ROUND), pid.lower())
+out = wt + "-out"
+NCH, NCH_N = ("THREE", 3) if ROUND == 1 else ("TWO", 2)
+EXTRA = "" if ROUND == 1 else """
+IMPORTANT - this is a second, harder round. An earlier round already planted plain local slips (off-by-one, flipped comparison, wrong tie-break, dropped special case, swapped arguments in one function) and the project's verification caught those at once with randomised single-call checks. This time every change must be of a kind that a check calling the changed function ONCE on a fresh object with a random input would be unlikely to notice. Prefer:
+  - state that survives between calls: a cache / memo / module-level global / 'last used' slot that goes stale, a lazily computed attribute that is not invalidated, an input object (list, numpy array, Obs, coordinate, track) that is mutated or aliased so that a LATER call or a second object is affected;
+  - behaviour that depends on the ORDER of operations or on calling a second public entry point first (operator overloads vs methods, convenience wrappers vs core functions, collection-level vs track-level calls);
+  - argument variants that real callers use but are rare: int vs float vs numpy scalar, 0 / None / negative / empty, an ObsTime vs seconds, a Node vs its id, a 1-element or 2-element input, the same object passed twice;
+  - two cooperating edits in different functions/files that are each harmless alone.
+Do not repeat the plain local slips of the first round.
+"""
 print(f"""You are testing how good a project's verification is by planting realistic bugs. The project is the pure-Python GPS trajectory library tracklib (git repository at /repo). Work ONLY in your own scratch git worktree: create it with
   git -C /repo worktree add --detach {wt} HEAD
-and make all edits under {wt}. Never edit, commit, checkout or stash anything in /repo itself, and do not read or touch anything under /verif (you must work independently of it). Python is /venv/bin/python (pytest available); there is no network.
+and make all edits under {wt}. Never edit, commit, checkout or stash anything in /repo itself (and never run `git stash` at all, not even inside your worktree: the stash is shared with /repo - undo with `git checkout -- .` or `git apply -R`), and do not read or touch anything under /verif (you must work independently of it). Python is /venv/bin/python (pytest available); there is no network.
 
+{EXTRA}
 The property that must be broken:
 
   Title: {p['title']}
@@ -15,16 +27,16 @@ The property that must be broken:
   Quantified over: {p['quantifier']['text']}
   Code it lives in: {', '.join(p['anchors']['files'])}
 
-Produce THREE different, independent changes to tracklib's source (each a separate small patch against the unmodified worktree, touching only files under tracklib/), each of which
+Produce {NCH} different, independent changes to tracklib's source (each a separate small patch against the unmodified worktree, touching only files under tracklib/), each of which
   (a) breaks the property above for some inputs / operation sequences, i.e. the library then really returns a wrong result or fails where the statement says it must not;
   (b) still imports fine and still passes the repository's existing test-suite exactly as before. Check with
         cd {wt} && /venv/bin/python -m pytest -q -p no:cacheprovider --timeout=900 2>&1 | tail -15
       The unmodified tree gives "11 failed, 243 passed" (the 11 failures are pre-existing: testMapOn, testMapOnRaster, test_read_wfs, test_read_asc, test_read_ign_mnt, test_read_metadata_mnt, testWriteTwoTrackToManyGpx0AF/1AF/2AF, testCircleTrigo, testCircles); with your change the same 243 must still pass;
   (c) looks like a plausible slip a maintainer could make during a refactoring or "optimisation" (off-by-one, wrong comparison, swapped arguments, stale cache, dropped special case, wrong tie-break, early exit...), not sabotage and not a comment-flagged hack;
   (d) needs something SPECIFIC to manifest - a particular multi-step sequence of operations, an unusual but legal input (ties, duplicates, zero weights, boundary values, particular sizes, a particular ordering), or two cooperating code sites that each look fine alone - so that ordinary use and the existing tests do not expose it at once. Avoid changes that break almost every call.
-Make the three changes as different from each other as you can (different functions / different triggering conditions).
+Make the changes as different from each other as you can (different functions / different triggering conditions).
 
-For each change k = 1, 2, 3 write into /tmp/seed-{pid.lower()}-out/k/ :
+For each change k = 1..{NCH_N} write into {out}/k/ :
   patch.diff   - `git -C {wt} diff` of that change alone (applies with `git apply` to the unmodified tree)
   demo.py      - a small stand-alone program (run as `cd <tree> && /venv/bin/python demo.py`, it should insert the tree's root into sys.path itself via os.getcwd()) that exits 0 on the unmodified tree and exits 1 (printing what is wrong) with the change applied, demonstrating the violation of the property through the public API
   notes.md     - 5-10 lines: what the change is, why it breaks the property, what exactly is needed for it to manifest, and the pytest summary line you observed with it.
